@@ -60,6 +60,13 @@ def runC08 (t : Tier) : Emit Unit := do
       emit "C08" (demuxCase bs { view := .perpid, kind := kind, chunks := [c] } none (some exp) "fixed-chunks-explicit")
       let kind2 ← liftGen (pick [ReaderKind.seek, .bufio])
       emit "C08" (demuxCase bs { view := .perpid, kind := kind2, chunks := [c], size := 0 } none (some exp) "fixed-chunks-auto")
+    -- a reader that returns its last bytes together with io.EOF, every reader kind, several chunk sizes
+    for (kind, nm) in [(ReaderKind.seek, "seek+dataeof"), (.plain, "plain+dataeof"), (.bufio, "bufio+dataeof")] do
+      for c in [1, 100, 188, 5000] do
+        emit "C08" (demuxCase bs { view := .perpid, kind := kind, readerName := some nm, chunks := [c] } none (some exp) "last-bytes-with-eof")
+    -- detection-window reads that stop after 189..192 bytes (3 x 63, 2 x 95, 189, 190, 191, 192)
+    for c in [63, 95, 189, 190, 191, 192] do
+      emit "C08" (demuxCase bs { view := .perpid, kind := .seek, chunks := [c], size := 0 } none (some exp) "detection-window-short-reads")
     for _ in [0:(if t.quick then 10 else 50)] do
       let n ← liftGen (randRange 1 8)
       let sched ← liftGen (genList n (randRange 1 400))
@@ -91,7 +98,10 @@ def runC08 (t : Tier) : Emit Unit := do
       let ref := demuxCase big { view := .items, packetAPI := true, size := 188 + k } none none "ref"
       let expItems := "|".intercalate ((ref.model.splitOn "|").drop 2)
       for kind in [ReaderKind.plain, .bufioSmall] do
-        emit "C08" (demuxCase big { view := .items, packetAPI := true, size := 0, kind := kind, chunks := [61] } none (some expItems) "auto-unpeekable-reader")
+        for c in [61, 63, 95, 190] do
+          emit "C08" (demuxCase big { view := .items, packetAPI := true, size := 0, kind := kind, chunks := [c] } none (some expItems) "auto-unpeekable-reader")
+      for c in [63, 95, 189, 191] do
+        emit "C08" (demuxCase big { view := .items, packetAPI := true, size := 0, kind := .seek, chunks := [c] } none (some ref.model) "auto-equals-explicit-packets")
       -- and the readers that can be rewound / peeked lose nothing
       for kind in [ReaderKind.seek, .bufio] do
         emit "C08" (demuxCase big { view := .items, packetAPI := true, size := 0, kind := kind } none (some ref.model) "auto-equals-explicit-packets")
@@ -203,6 +213,28 @@ def runC03 (t : Tier) : Emit Unit := do
       let st : Spec.StreamModel := { units := [patUnit, u], schedule := [] }
       emit "C03" (outcomesCase st.bytes {} "descriptor-length-vs-tag")
       emit "C03" (demuxCase st.bytes { view := .seq } none none "descriptor-length-vs-tag-seq")
+  -- bufio.Reader buffers of 188..192 bytes (one packet fits, the 193-byte detection window does not) and 193: auto-detection
+  for nm in ["bufio188", "bufio190", "bufio192", "bufio193"] do
+    let m ← liftGen (smallStream 1)
+    let mb ← liftGen (mutateBytes m.bytes)
+    for api in [false, true] do
+      let k := if nm = "bufio193" then ReaderKind.bufio else .bufioSmall
+      emit "C03" (outcomesCase m.bytes { size := 0, kind := k, readerName := some nm, packetAPI := api } "bufio-buffer-around-193")
+      emit "C03" (outcomesCase mb { size := 0, kind := k, readerName := some nm, packetAPI := api } "bufio-buffer-around-193")
+  -- sections on the PAT PID and on an announced PMT PID that announce up to 4095 bytes and span 8..23 packets before they
+  -- complete (or never do)
+  let m00 ← liftGen (smallStream 0)
+  let pat0 := (m00.units.filter (·.pid == 0)).headD default
+  for sl in [1300, 1464, 1465, 2000, 4095] do
+    for pidT in [0, 0x1000] do
+      let junk ← liftGen (randBytes (sl + 40))
+      let unit : Bytes := [0, (if pidT = 0 then 0x00 else 0x02), 0xb0 + sl / 256, sl % 256] ++ junk
+      let n := unit.length
+      let u : Spec.TSUnit := { pid := pidT, payload := unit, data := [], psi := true,
+                               chunks := List.replicate (n / 184) 184 ++ (if n % 184 = 0 then [] else [n % 184]) }
+      let st : Spec.StreamModel := { units := [pat0, u], schedule := [] }
+      emit "C03" (demuxCase st.bytes { view := .seq } none none "huge-section-on-table-pid")
+      emit "C03" (outcomesCase st.bytes { size := 0, kind := .bufio } "huge-section-on-table-pid")
   -- PES units whose length fields contradict each other and the unit (PES_packet_length x PES_header_data_length x
   -- flags x unit size), one unit per stream
   for sid in [0xe0, 0xc0, 0xbd] do
@@ -433,6 +465,45 @@ def runC07 (t : Tier) : Emit Unit := do
       let sh ← liftGen (shuffle (all.filter (· != 0) ++ restPat))
       let m' := { mr with schedule := List.replicate firstPat 0 ++ sh }
       emit "C07" (demuxCase m'.bytes { view := .perpid } none (some expR) "merge-repeated-pat")
+    -- a stray continuation packet of the PMT PID in front of the PAT (a capture that starts mid-cycle): the PMTs that follow
+    -- the PAT are delivered all the same, by the calls that read their final packets
+    if i % 2 = 0 then
+      let junk ← liftGen (randBytes 184)
+      let stray : Packet := { (nullPacket 9) with payload := junk, header := { (nullPacket 9).header with pid := 0x1000 } }
+      emit "C07" (demuxCase (bytesOf (stray :: m.packets)) { view := .perpid, noErr := true } none (some (showPerPID m.expected 0 "eof" true)) "stray-pmt-packet-before-pat")
+    -- the same with a continuity-counter jump between the two PMT units that follow the PAT: the first one was returned when
+    -- it completed, so the jump costs nothing
+    if i % 2 = 0 then
+      let mg ← liftGen (genStream { pesPIDs := [0x100], pmtPIDs := [0x1000], dvb := false, unitsPerPID := 2 })
+      let strayU : Spec.TSUnit := { pid := 0x1000, payload := [0] ++ List.replicate 20 0xff, data := [], psi := true, chunks := [21], sectionsEnd := 1 }
+      let m2 : StreamModel := { units := strayU :: mg.units, schedule := 0x1000 :: mg.schedule }
+      let pmtUnits := mg.units.filter (·.pid == 0x1000)
+      let nA := (pmtUnits.headD default).chunks.length
+      let dA := (pmtUnits.headD default).data.length
+      let bump (p : Packet) : Packet := { p with header := { p.header with continuityCounter := (p.header.continuityCounter + 5) % 16 } }
+      let pk := (m2.packets.foldl (fun (acc : List Packet × Nat) p =>
+        if p.header.pid == 0x1000 then (acc.1 ++ [if acc.2 ≥ 1 + nA then bump p else p], acc.2 + 1) else (acc.1 ++ [p], acc.2)) ([], 0)).1
+      let exp2 := m2.expected.map fun (pid, ds) =>
+        if pid == 0x1000 then (pid, ds.zipIdx.map fun (d, j) => if j ≥ dA then { d with firstPacket := d.firstPacket.map bump } else d) else (pid, ds)
+      emit "C07" (demuxCase (bytesOf pk) { view := .perpid, noErr := true } none (some (showPerPID exp2 0 "eof" true)) "pmt-pid-before-pat-with-counter-jump")
+    -- a CRC-broken unit on an SI PID makes NextData return an error while units are in progress on other PIDs: they are
+    -- delivered all the same (the caller goes on calling)
+    if i % 2 = 0 then
+      let (s1, b1) ← liftGen (genSectionOfKind 2 false)
+      let _ := s1
+      let broken := (Spec.unitEncode 0 [b1] 0).set 12 (((Spec.unitEncode 0 [b1] 0).getD 12 0) ^^^ 0x10)
+      let bu : Spec.TSUnit := { pid := 0x11, payload := broken, data := [], psi := true, chunks := [broken.length] }
+      let bu2 : Spec.TSUnit := bu
+      let p1 ← liftGen (genPESUnit 0x100 1500)
+      let p2 ← liftGen (genPESUnit 0x100 200)
+      let q1 ← liftGen (genPESUnit 0x101 1500)
+      let q2 ← liftGen (genPESUnit 0x101 200)
+      let units := [p1, p2, q1, q2, bu, bu2]
+      let perB := perPID units
+      let sched ← liftGen (shuffle ((perB.map fun (pid, pk, _) => List.replicate pk.length pid).flatten))
+      let mb : StreamModel := { units := units, schedule := sched }
+      emit "C07" (demuxCase mb.bytes { view := .perpid, exclude := [0x11], noErr := true } none
+        (some (showPerPID (mb.expected.filter (·.1 != 0x11)) 0 "eof" true)) "crc-broken-si-unit-among-pes")
     -- insert null / adaptation-only / transport-error packets at random points
     let ps := m.packets
     for _ in [0:(if t.quick then 6 else 20)] do
